@@ -34,7 +34,7 @@ func loadEngine(repo, specDir string) (*Engine, error) {
 	prog, spkgs := ssautil.AllPackages(pkgs, ssa.InstantiateGenerics)
 	prog.Build()
 	repoPkgs := map[string]bool{}
-	en := &Engine{prog: prog, cs: newContracts(), funcs: map[string]*ssa.Function{}, pkgs: map[string]*ssa.Package{}, inlineMax: 8}
+	en := &Engine{prog: prog, cs: newContracts(), funcs: map[string]*ssa.Function{}, pkgs: map[string]*ssa.Package{}, inlineMax: 8, mapSortMemo: map[string]string{}}
 	for i, sp := range spkgs {
 		if sp == nil {
 			continue
